@@ -215,12 +215,14 @@ def command(b, cfg, stage, prop, tier, seed, sh_i, sh_n, out, run_dir):
     if stage.get("kind", "mv") == "mv":
         argv = [b["mv"], stage["cmd"], "--prop", prop, "--tier", tier, "--seed", str(seed), "--shard", f"{sh_i}/{sh_n}",
                 "--level", b.get("level", "auto"), "--out", out] + list(stage.get("args", []))
+        if stage.get("needs_mvexec"):
+            argv += ["--mvexec", b["mvexec"]]
         return argv, None, None
     raise ValueError("unknown stage kind")
 
 
 def replay_command(b, cfg, path, run_dir):
-    argv = [b["mv"], "replay", "--level", b.get("level", "auto"), path]
+    argv = [b["mv"], "replay", "--level", b.get("level", "auto"), path, "--mvexec", b.get("mvexec", "")]
     return argv, None, None
 
 
